@@ -70,8 +70,6 @@ Fixpoint incr (l : list cp) : Prop :=
 (* gap : the semantic side condition under which a printed range may straddle the surrogate gap *)
 Definition wf_cc (gap : Prop) (cs : list cp) : Prop :=
   2 <= length cs /\ Forall scalar cs /\ incr cs
-  /\ ~ (In 36%N cs /\ In 37%N cs /\ In 38%N cs)           (* a printed range must not end in a raw & *)
-  /\ ~ (In 124%N cs /\ In 125%N cs /\ In 126%N cs)        (* ... nor in a raw ~ *)
   /\ (gap \/ ~ (In 55295%N cs /\ In 57344%N cs)).
 
 (* ---------- expressions ---------- *)
